@@ -107,8 +107,9 @@ Print Assumptions default_bridges_correct.
 (* T1  THE PROPERTY FOR ALL OPERATOR TREES.  [den ro o dom ran c F] says: o is a tree,
    of any depth, built from the nine expression classes (each with fresh OR
    user-supplied temporaries tmp= / tmp_ran=, listed in c and pairwise distinct), the
-   five translated leaf classes of default_ops.py, ten translated proximal operators
-   (proximal_l1, proximal_l2_squared, proximal_convex_conj_l2_squared with and without g;
+   five translated leaf classes of default_ops.py, twelve translated proximal operators
+   (proximal_l1, proximal_convex_conj_l1, proximal_l2_squared, proximal_convex_conj_l2_squared
+   with and without g;
    proximal_box_constraint x 4) and primitive leaves of any of the three dispatch
    kinds (incl. leaves returning their argument itself), well-formed as the __init__
    methods demand, and F is the real function it denotes.  Then for EVERY store, every
